@@ -28,6 +28,11 @@ type c13Case struct {
 	// Cfg2, if set, is loaded into the running server after the probes; the same addresses are then
 	// probed again and judged by Cfg2 (what an address was bound to before must not stick)
 	Cfg2 *cfggen.Config `json:"cfg2,omitempty"`
+	// FaultyKeys: the shared-secret keychain (the deployment's secure store) fails to produce these keys
+	// at connection time.  An address whose first matching secret configuration is hit by that may be
+	// refused or fall to the next matching one - but what it is bound to is always one configuration's
+	// own secret, handler and users
+	FaultyKeys []string `json:"faulty_keys,omitempty"`
 }
 
 var c13Prefixes = []string{
@@ -47,6 +52,13 @@ func genC13(t *rapid.T) c13Case {
 	if rapid.IntRange(0, 2).Draw(t, "reload") == 0 {
 		c2 := genC13Config(t)
 		c.Cfg2 = &c2
+	}
+	if rapid.IntRange(0, 3).Draw(t, "keychain_fault") == 0 {
+		for i := range c.Cfg.Secrets {
+			if rapid.IntRange(0, 2).Draw(t, "key_fails") == 0 {
+				c.FaultyKeys = append(c.FaultyKeys, fmt.Sprintf("key-%d", i))
+			}
+		}
 	}
 	// probes: edges of configured prefixes, in both byte forms for IPv4
 	all := append([]string{}, c.Cfg.PrefixDeny...)
@@ -160,7 +172,7 @@ func runC13(t failer, c c13Case) {
 	fail := func(sig, format string, args ...interface{}) {
 		violation(t, "C13", "admission", "C13:"+sig, c, format, args...)
 	}
-	env, err := startRef(c.Cfg, refOpts{format: c.Format})
+	env, err := startRef(c.Cfg, refOpts{format: c.Format, faultyKeys: c.FaultyKeys})
 	if err != nil {
 		// refused by the unmarshaller (no users / no secrets): nothing to admit to
 		ev.Class("config-refused")
@@ -200,10 +212,26 @@ func runC13Probes(t failer, cc c13Case, cfg cfggen.Config, env *refEnv, sessionp
 	}{cfg, cc.Probes}
 	session := *sessionp
 	defer func() { *sessionp = session }()
+	// the model's view when key lookups fail: the secret configurations hit by it are passed over
+	strict := cfg
+	if len(cc.FaultyKeys) > 0 {
+		ev.Class("keychain-fault-injected")
+		m := cfg.Clone()
+		for i := range m.Secrets {
+			for _, k := range cc.FaultyKeys {
+				if m.Secrets[i].Secret.Key == k {
+					m.Secrets[i].Type = cfggen.ProviderDNS
+				}
+			}
+		}
+		c.Cfg = m
+	}
 	for pi, p := range c.Probes {
 		pi := pi + 100*phase
 		a := cfggen.Addr(p.Addr)
 		adm := c.Cfg.Admit(a)
+		// lenient: the fault decides between refusal and the next matching configuration
+		lenient := !adm.Grey && strict.Admit(a).Scope != adm.Scope
 		remote := &net.TCPAddr{IP: a.IP(), Port: 5000 + pi}
 		secret, handler, gerr := env.stack.Loader.Get(context.Background(), remote)
 		served := gerr == nil && secret != nil && handler != nil
@@ -218,6 +246,9 @@ func runC13Probes(t failer, cc c13Case, cfg cfggen.Config, env *refEnv, sessionp
 		}
 		if c.Cfg.InDeny(a) && c.Cfg.InAllow(a) {
 			ev.Class("probe:in-deny-and-allow")
+		}
+		if adm.Scope < 0 && lenient && !served {
+			continue
 		}
 		if adm.Scope < 0 {
 			if served {
@@ -241,6 +272,10 @@ func runC13Probes(t failer, cc c13Case, cfg cfggen.Config, env *refEnv, sessionp
 			continue
 		}
 		sc := c.Cfg.Secrets[adm.Scope]
+		if !served && lenient {
+			ev.Class("probe:refused-because-of-keychain-fault")
+			continue
+		}
 		if !served {
 			fail("admissible-address-refused", "address %v belongs to scope %s but Get failed: %v", a.IP(), sc.Name, gerr)
 		}
